@@ -12,6 +12,9 @@ PROPS = {
   'C11': {'families': [('chess', 300, 12000)]},
   'C12': {'families': [('attacks', 3000, 200000), ('chess', 200, 8000)]},
   'C17': {'families': [('chess', 400, 24000)]},
+  'C04': {'families': [('search', 120, 6000)]},
+  'C05': {'families': [('search', 120, 6000)]},
+  'C13': {'families': [('search', 120, 6000)]},
   'C07': {'families': [('go', 4000, 400000)]},
   'C08': {'families': [('time', 5000, 1000000)]},
   'C14': {'families': [('tt', 3000, 300000)]},
